@@ -76,17 +76,25 @@ def make_config(optstr, verbose):
     return DoctestConfig()._populate_from_cli(ns)
 
 
-def observe_native(path, cmd, style, verbose, optstr, tracefile):
+def observe_native(path, cmd, style, verbose, optstr, tracefile, noconfig=False, ident='path'):
     """in-process `runner.doctest_module`; returns dict(kind='run'|'list'|'dump'|'raised', ...)"""
     from xdoctest import runner
     os.environ['XDOCVERIF_TRACE'] = tracefile
     read_trace(tracefile)
     buf = io.StringIO()
     try:
-        config = make_config(optstr, verbose)
+        # noconfig: the plain programmatic call `xdoctest.doctest_module(path, command=...)` (config=None)
+        config = None if (noconfig and optstr is None) else make_config(optstr, verbose)
         with contextlib.redirect_stdout(buf), warnings.catch_warnings():
             warnings.simplefilter('ignore')
-            rs = runner.doctest_module(path, command=cmd, argv=[], style=style, verbose=verbose, config=config)
+            # the module can be identified by its path, by `path::command`, or by the live module object
+            target, command = path, cmd
+            if ident == 'colon' and cmd is not None:
+                target, command = path + '::' + cmd, None
+            elif ident == 'module':
+                from xdoctest import utils
+                target = utils.import_module_from_path(path)
+            rs = runner.doctest_module(target, command=command, argv=[], style=style, verbose=verbose, config=config)
     except BaseException as e:  # noqa
         return {'kind': 'raised', 'exc': '%s: %s' % (type(e).__name__, str(e)[:200]), 'trace': read_trace(tracefile),
                 'stdout': buf.getvalue()}
@@ -107,6 +115,7 @@ def observe_native(path, cmd, style, verbose, optstr, tracefile):
     res['ran'] = [e.unique_callname for e in rs.get('times', {})]
     res['verdict_lines'] = verdict_lines(out)
     res['summary_line'] = summary_line(out)
+    res['finished_line'] = finished_line(out)
     return res
 
 
@@ -119,6 +128,15 @@ def verdict_lines(out):
     out = ANSI_RE.sub('', out)
     return [({'SUCCESS': 'P', 'FAILURE': 'F', 'SKIPPED': 'S'}[m.group(1)], m.group(2).strip().split('::')[-1])
             for m in VERDICT_RE.finditer(out)]
+
+
+FINISHED_RE = re.compile(r'^(\d+) / (\d+) passed\s*$', re.M)
+
+
+def finished_line(out):
+    """(n_passed, n_total) of the `n / N passed` line `_run_examples` prints for more than one doctest, or None"""
+    ms = list(FINISHED_RE.finditer(ANSI_RE.sub('', out)))
+    return (int(ms[-1].group(1)), int(ms[-1].group(2))) if ms else None
 
 
 def summary_line(out):
@@ -161,6 +179,7 @@ def main_inprocess(path, cmd, style, flags, optstr, tracefile):
         os.environ.pop('XDOCVERIF_TRACE', None)
     out = buf.getvalue()
     return {'rc': rc, 'stdout': out, 'summary_line': summary_line(out), 'verdict_lines': verdict_lines(out),
+            'finished_line': finished_line(out),
             'trace': read_trace(tracefile),
             'names': [l.strip().split(' ')[-1] for l in out.splitlines() if l.strip().startswith('python -m xdoctest ')]}
 
@@ -175,15 +194,19 @@ def cli_subprocess(path, cmd, style, flags, optstr, tracefile, timeout=120):
                        stderr=subprocess.STDOUT, timeout=timeout)
     out = p.stdout.decode('utf8', 'replace')
     return {'rc': p.returncode, 'stdout': out, 'summary_line': summary_line(out), 'verdict_lines': verdict_lines(out),
-            'trace': read_trace(tracefile),
+            'finished_line': finished_line(out), 'trace': read_trace(tracefile),
             'names': [l.strip().split(' ')[-1] for l in out.splitlines() if l.strip().startswith('python -m xdoctest ')]}
 
 
-PYTEST_LINE_RE = re.compile(r'^(\S+\.py)::(\S+) (PASSED|FAILED|SKIPPED|ERROR|XFAIL|XPASS)\b', re.M)
+PYTEST_LINE_RE = re.compile(r'^(?:\S*/)?([^/\s]+\.py)::(\S+) (PASSED|FAILED|SKIPPED|ERROR|XFAIL|XPASS)\b', re.M)
 
 
 def pytest_subprocess(d, paths, style, optflag, optstr, tracefile, junit, timeout=300):
-    """one `pytest --xdoctest-modules -rA -v` process over a batch of module files.
+    """one `pytest --xdoctest-modules -rA -v <directory>` process over a batch of module files, which must be
+    ALL the .py files of their directory: pytest discovers them (in file-name order).  Naming the files on the
+    command line instead would make pytest's own python plugin import each of them as a test module (explicit
+    arguments bypass the test_*.py name filter), so a module that raises on import would be a collection error
+    of pytest itself and abort the whole session.
     returns dict(rc, items=[(file, name, outcome)] from the junit xml, lines=[...] from -v, stdout)"""
     argv = [sys.executable, '-m', 'pytest', '--xdoctest-modules', '-rA', '-v', '-p', 'no:cacheprovider',
             '--xdoctest-style=' + style, '--junitxml=' + junit, '-o', 'junit_family=xunit1',
@@ -193,7 +216,7 @@ def pytest_subprocess(d, paths, style, optflag, optstr, tracefile, junit, timeou
             f.write('[pytest]\n')
     if optstr is not None:
         argv.append('%s=%s' % (optflag, optstr))
-    argv += [os.path.basename(p) for p in paths]
+    argv.append(os.path.dirname(paths[0]))
     read_trace(tracefile)
     try:
         os.remove(junit)
@@ -265,18 +288,20 @@ def model_entries(spec, style, opts, real_inv):
     if [x['unique'] for x in inv] != [r[2] for r in real_inv]:
         return None
     entries = []
+    ie = bool(spec.get('import_error'))
     for x, r in zip(inv, real_inv):
-        o, _ = G.doctest_outcome(x, opts)
+        o, _ = G.doctest_outcome(x, opts, ie)
         entries.append(('E', r[0], r[1], r[3], BITS[o]))
     for z in G.zero_arg_functions(spec):
-        entries.append(('Z', z, 0, '>>> %s()' % z, BITS['S' if opts.get('SKIP') else 'P']))
+        entries.append(('Z', z, 0, '>>> %s()' % z, BITS['S' if opts.get('SKIP') else ('F' if ie else 'P')]))
     return entries
 
 
 def observe_case(path, case, tracefile):
     ch = case['channel']
     if ch == 'api':
-        o = observe_native(path, case['cmd'], case['style'], case['verbose'], case['optstr'], tracefile)
+        o = observe_native(path, case['cmd'], case['style'], case['verbose'], case['optstr'], tracefile,
+                           noconfig=bool(case.get('noconfig')), ident=case.get('ident', 'path'))
         o['verbose'] = case['verbose']
         return o
     f = main_inprocess if ch == 'main' else cli_subprocess
@@ -305,6 +330,18 @@ def compare_case(exp, model, o):
         if mk != 'raised':
             dis.append('model %s, doctest_module raised' % mk)
         return dis, bad
+    if exp['action'] == 'dump':
+        # `dump` gathers like `all` (force-disabled left out), converts, executes nothing, exits 0
+        if o['kind'] == 'cli':
+            both('exit status', 0, (model.get('exit', 0) if model else None), o['rc'])
+        else:
+            both('action', 'dump', mk, o['kind'])
+        both('trace of a dump command', [], None, o['trace'])
+        ndef = len(re.findall(r'^def test_', o.get('stdout', ''), re.M))
+        both('number of dumped doctests', len(exp['names']), len(model['names']) if model and 'names' in model else None, ndef)
+        if model and 'names' in model and model['names'] != exp['names']:
+            dis.append('dumped doctests: model %r, expected %r' % (model['names'], exp['names']))
+        return dis, bad
     if o['kind'] in ('run', 'list'):
         both('action', 'list' if is_list else 'run', mk, o['kind'])
         if is_list:
@@ -317,6 +354,9 @@ def compare_case(exp, model, o):
         both('trace', exp['trace'], None, o['trace'])
         if v >= 1:
             both('verdict lines', list(zip(exp['outcomes'], exp['ran'])), None, o['verdict_lines'])
+        if o.get('finished_line') is not None:
+            both('"n / N passed" line', (exp['n_passed'], exp['n_total']),
+                 (model.get('n_passed'), model.get('n_total')) if model else None, o['finished_line'])
     else:   # cli / main
         both('exit status', exp['exit'], (model.get('exit', 0) if model else None), o['rc'])
         both('trace', [] if is_list else exp['trace'], None, o['trace'])
@@ -332,6 +372,9 @@ def compare_case(exp, model, o):
                 for key, k in (('n_failed', 'failed'), ('n_passed', 'passed'), ('n_skipped', 'skipped')):
                     both('summary line: %s' % k, exp[key], model.get(key) if model else None, sl[k])
             both('verdict lines', list(zip(exp['outcomes'], exp['ran'])), None, o['verdict_lines'])
+        if o.get('finished_line') is not None:
+            both('"n / N passed" line', (exp['n_passed'], exp['n_total']),
+                 (model.get('n_passed'), model.get('n_total')) if model else None, o['finished_line'])
     return dis, bad
 
 
@@ -379,7 +422,7 @@ def expected_front_ends(spec, style, opts):
     list of dict(unique, pytest 'P'|'F'|'S', native 'P'|'F'|'S'|None (omitted), trace_pytest, trace_native)"""
     out = []
     for dt in G.inventory(spec, style):
-        oc, tr = G.doctest_outcome(dt, opts)
+        oc, tr = G.doctest_outcome(dt, opts, bool(spec.get('import_error')))
         pd, nd = G.disabled(dt, pytest=True), G.disabled(dt)
         out.append({'unique': dt['unique'], 'pytest': 'S' if pd else oc, 'native': None if nd else oc,
                     'trace_pytest': [] if pd else tr, 'trace_native': [] if nd else tr,
@@ -387,10 +430,11 @@ def expected_front_ends(spec, style, opts):
     return out
 
 
-def front_end_lines(real_inv, opts):
+def front_end_lines(real_inv, opts, import_error=False):
     """protocol lines of op `front_ends`, one per collected doctest: the doctest is run ONCE in-process
     (run(on_error='return'), primitive part results recorded by corr/runloop.observe) and the model
-    predicts both verdicts from that same record"""
+    predicts both verdicts from that same record.  For a module that raises on import the recording run
+    (which has no module to import) is the same, and the model is told `importOk = 0`."""
     from . import runloop
     lines = []
     for (cn, num, uq, src) in real_inv:
@@ -403,7 +447,21 @@ def front_end_lines(real_inv, opts):
             continue
         f = o['line'].split('\t')
         cfg = f[1].split(';')
-        lines.append('\t'.join(['front_ends', enc(src), cfg[3], cfg[1], f[2]] + f[3:]))
+        # a doctest that ends itself (calls pytest.skip() / raises ExitTestException): the recording helper only
+        # knows the exit marker of its own generator, so the primitive result of that part (the last one that
+        # was executed, run ended without a failure) is turned into the model's `exit` result here
+        logged = sorted(o.get('logged_stdout', {}))
+        if o.get('ending') == 'returned' and o.get('kind') is None and logged:
+            last = logged[-1]
+            psrc = o['parts'][last].source
+            if 'pytest.skip(' in psrc or 'ExitTestException' in psrc:
+                ri = 3 + 4 * last + 3
+                r = f[ri].split(':')
+                if r[0] == 'ok':
+                    f[ri] = 'exit:%s:%s' % (r[1], enc('Skipped: resource missing\n'))
+                elif r[0] == 'raised':
+                    f[ri] = 'exit:%s:%s' % (r[1], r[2])
+        lines.append('\t'.join(['front_ends', enc(src), cfg[3], '0' if import_error else cfg[1], f[2]] + f[3:]))
     return lines
 
 
@@ -415,11 +473,11 @@ def parse_front_ends(ans):
             'native_if_run': d['native'].upper(), 'pdis': d['pdis'] == '1', 'ndis': d['ndis'] == '1'}
 
 
-def model_front_ends(path, style, opts):
+def model_front_ends(path, style, opts, import_error=False):
     """model verdicts of every collected doctest + model exit codes; None entries = not covered"""
     from .. import driver
     inv = real_inventory(path, style)
-    lines = front_end_lines(inv, opts)
+    lines = front_end_lines(inv, opts, import_error)
     idx = [i for i, l in enumerate(lines) if l is not None]
     ans = driver.run_lines([lines[i] for i in idx], jobs=1) if idx else []
     per = [None] * len(inv)
@@ -455,11 +513,18 @@ def check_front_ends(d, specs, style, optstr, opts, optflag, tracefile, use_mode
                      per_module_pytest=False):
     """the modules `specs` through ONE pytest process (or one each) and through the native runner;
     returns list of per-module dicts(spec, problems(bad), disagreements(dis), ...)"""
-    paths = [write_module(d, s) for s in specs]
     junit = os.path.join(d, 'junit.xml')
     out = []
     exp_all = [expected_front_ends(s, style, opts) for s in specs]
     groups = [[i] for i in range(len(specs))] if per_module_pytest else [list(range(len(specs)))]
+    # one directory per pytest process; pytest collects a directory in file-name order
+    groups = [sorted(g, key=lambda i: specs[i]['name'] + '.py') for g in groups]
+    paths = [None] * len(specs)
+    for g in groups:
+        sub = os.path.join(d, 'batch%03d' % len([x for x in os.listdir(d) if x.startswith('batch')]))
+        os.mkdir(sub)
+        for i in g:
+            paths[i] = write_module(sub, specs[i])
     pyres = {}
     for g in groups:
         r = pytest_subprocess(d, [paths[i] for i in g], style, optflag, optstr, tracefile, junit)
@@ -474,7 +539,7 @@ def check_front_ends(d, specs, style, optstr, opts, optflag, tracefile, use_mode
         r, by, exp_rc, exp_trace, g = pyres[i]
         exp = exp_all[i]
         dis, bad = [], []
-        model = model_front_ends(paths[i], style, opts) if use_model else None
+        model = model_front_ends(paths[i], style, opts, bool(spec.get('import_error'))) if use_model else None
         # ---- pytest side
         if by is None:
             bad.append('pytest wrote no junit xml (rc=%r): %s' % (r['rc'], r['stdout'][-300:]))
